@@ -26,7 +26,10 @@ RULE = ('span pairs: for list / tuple / mixed-hashable spans every old span of l
         'models alternate; variable sets rotate over every NumPy kind: float64/int64/bool/<U2; int8-32 and uint8-64; '
         'float16/32, complex64/128, <U5, bytes S3; object (lists, dicts), datetime64, timedelta64; TracerMixin models '
         '(Trace objects); variables named like class members (size, values, copy, eval, reindex, nbytes, NAMES, LAGS) and '
-        'underscore twins (Tw / _Tw / __Tw). Plus seeded random longer pairs, and the '
+        'underscore twins (Tw / _Tw / __Tw). The new span is given in every supported form (range, list, tuple, ndarray '
+        'int/str/float, pd.Index, PeriodIndex annual/quarterly, DatetimeIndex); the result\'s span must be of the same type / '
+        'dtype / freq and answer label access (elements, pandas string spellings, partial strings, slices) as a fresh '
+        'object over that span does. Plus seeded random longer pairs, and the '
         'pandas mixin with default arguments. distinct = distinct (span type, old, new, configuration, class); '
         'non-trivial = reindex returns an object')
 TRUSTED = ['labels cross to the model as equivalence classes under Python == / hash',
@@ -187,6 +190,7 @@ POOLS = {
     'mixed': ['a', 1, (2, 3), 2.5],
     'np_int': [2000, 2001, 2002, 1999],
     'np_str': ['a', 'b', 'c', 'z'],
+    'np_float': [2000.0, 2001.5, 2002.0, 1999.25],
 }
 
 
@@ -197,6 +201,8 @@ def to_span(kind, labels):
         return np.array(labels, dtype=np.int64)
     if kind == 'np_str':
         return np.array(labels, dtype='<U1')
+    if kind == 'np_float':
+        return np.array(labels, dtype=float)
     return list(labels)
 
 
@@ -214,7 +220,7 @@ def pair_specs(tier):
         for old in seqs(pool[:3], 1, 3):
             for new in seqs(pool, 0, new_max):
                 yield {'span_kind': kind, 'old': old, 'new': new}
-    for kind in ('np_int', 'np_str'):
+    for kind in ('np_int', 'np_str', 'np_float'):
         pool = list(range(4))
         olds = [list(p) for n in (1, 2, 3) for p in itertools.permutations(pool[:3], n)] + [[0, 0], [0, 1, 0], [1, 1, 2]]
         for old in olds:
@@ -537,6 +543,77 @@ def same_value(a, b):
     return type(np.asarray(a).tolist()) == type(np.asarray(b).tolist()) and a == b
 
 
+def span_problem(rspan, new):
+    """'whose span is new_span': the same KIND of span, not merely the same labels."""
+    if type(rspan) is not type(new):
+        return f'type {type(rspan).__name__} instead of {type(new).__name__}'
+    if isinstance(new, np.ndarray):
+        if rspan.dtype != new.dtype or rspan.shape != new.shape:
+            return f'ndarray dtype/shape {rspan.dtype}{rspan.shape} instead of {new.dtype}{new.shape}'
+    elif isinstance(new, pd.Index):
+        if not rspan.equals(new):
+            return 'pandas index not .equals() the requested one'
+        if rspan.dtype != new.dtype:
+            return f'index dtype {rspan.dtype} instead of {new.dtype}'
+        if getattr(rspan, 'freq', None) != getattr(new, 'freq', None):
+            return f'index freq {getattr(rspan, "freq", None)} instead of {getattr(new, "freq", None)}'
+    elif isinstance(new, range):
+        if rspan != new:
+            return f'{rspan!r} instead of {new!r}'
+    return None
+
+
+def label_spellings(kind, new):
+    """Labels and label slices as a user addresses a FRESH object over this span: the elements themselves and, for
+    pandas spans, the string spellings pandas accepts (incl. a partial string)."""
+    labs = list(new)
+    out = list(labs[:4])
+    texts = bc.label_texts(kind, new)
+    if isinstance(new, pd.Index):
+        out += [t for t in texts[:4] if t is not None]
+        if kind == 'period_Q' and texts and texts[0]:
+            out.append(texts[0][:4])                   # a year in a quarterly index
+        if kind == 'datetime' and texts and texts[0]:
+            out.append(texts[0][:7])                   # a month in a daily index
+    if len(labs) >= 2:
+        out.append(slice(labs[0], labs[-1]))
+        if isinstance(new, pd.Index) and texts[0] is not None and texts[-1] is not None:
+            out.append(slice(texts[0], texts[-1]))
+    return out
+
+
+def access(o, nm, lab):
+    with warnings.catch_warnings():
+        warnings.simplefilter('ignore')
+        try:
+            return 'ok', o[nm, lab]
+        except Exception as e:  # noqa: BLE001
+            return 'exc', e
+
+
+def span_form_oracle(case, r, new, names, rep, pre):
+    rspan = r.__dict__['span']
+    why = span_problem(rspan, new)
+    if why:
+        bc.violate(rep, pre + 'reindex-span-type', f'result.span is not the requested span object\'s kind: {why}', case)
+    if rspan is new and isinstance(new, (list, np.ndarray)) and not case.get('same_span_object'):
+        bc.violate(rep, pre + 'reindex-span-is-argument', 'result.span IS the (mutable) argument object', case)
+    if not names:
+        return
+    # label access on the result behaves as on a fresh object built over the requested span
+    nm = names[0]
+    import copy as _copy
+    fresh = VectorContainer(_copy.deepcopy(new))
+    fresh.add_variable(nm, r.__dict__['_' + nm].copy(), dtype=r.__dict__['_' + nm].dtype)
+    for lab in label_spellings(case['span_kind'], new):
+        t0, v0 = access(fresh, nm, lab)
+        t1, v1 = access(r, nm, lab)
+        if t0 != t1 or (t0 == 'ok' and not deep_equal(np.asarray(v0), np.asarray(v1))):
+            bc.violate(rep, pre + 'reindex-span-label-access',
+                       f'result[{nm!r}, {lab!r}] gives {t1}: {v1!r}; on a fresh object over the requested span it gives {t0}: {v0!r}'[:400], case)
+            break
+
+
 def oracle(case, obj, before, old, new, outcome, rep, pandas_mixin=False):
     tag, r = outcome
     kw = case_kwargs(case)
@@ -570,6 +647,8 @@ def oracle(case, obj, before, old, new, outcome, rep, pandas_mixin=False):
     rs = list(r.__dict__['span'])
     if len(rs) != len(list(new)) or not all(label_eq(a, b) for a, b in zip(rs, list(new))):
         bc.violate(rep, pre + 'reindex-span', f'result span {rs!r} is not the requested span {list(new)!r}', case)
+    else:
+        span_form_oracle(case, r, new, names, rep, pre)
     if list(r.__dict__['index']) != names:
         bc.violate(rep, pre + 'reindex-variable-order', f'variables {r.__dict__["index"]} != {names}', case)
         return 'wrong'
@@ -737,7 +816,7 @@ def same_span_cases():
 
 
 def random_case(rng):
-    kind = rng.choice(['list_str', 'tuple_int', 'mixed', 'np_int', 'np_str', 'pd_int', 'pd_str', 'period_A', 'period_Q', 'datetime'])
+    kind = rng.choice(['list_str', 'tuple_int', 'mixed', 'np_int', 'np_str', 'np_float', 'pd_int', 'pd_str', 'period_A', 'period_Q', 'datetime'])
     if kind in POOLS:
         old = [rng.randrange(3) for _ in range(rng.randrange(1, 6))]
         if kind.startswith('np_'):
